@@ -849,11 +849,57 @@ fn calls_field(outcomes: &[CallOutcome]) -> String {
 				None => "-".to_string(),
 				Some(m) => xhex(m.as_bytes()),
 			};
-			let evs = o.events.iter().map(Ev::token).collect::<Vec<_>>().join(".");
+			let evs = compress_tokens(o.events.iter().map(Ev::token).collect());
 			format!("{res};{werr};{evs}")
 		})
 		.collect::<Vec<_>>()
 		.join(",")
+}
+
+/// Joins event tokens with `.`, writing a block of up to 48 tokens that
+/// repeats at least 3 times in a row as `R<count>:<tok>~<tok>~…`.
+pub fn compress_tokens(tokens: Vec<String>) -> String {
+	if tokens.len() < 64 {
+		return tokens.join(".");
+	}
+	// token ids for fast comparison
+	let mut ids: Vec<u64> = Vec::with_capacity(tokens.len());
+	{
+		let mut map: std::collections::HashMap<&str, u64> = std::collections::HashMap::new();
+		for t in &tokens {
+			let n = map.len() as u64;
+			ids.push(*map.entry(t.as_str()).or_insert(n));
+		}
+	}
+	let mut out: Vec<String> = vec![];
+	let mut i = 0;
+	let n = ids.len();
+	while i < n {
+		let mut best: Option<(usize, usize)> = None; // (period, repeats)
+		for p in 1..=48usize {
+			if i + 3 * p > n {
+				break;
+			}
+			let mut r = 1;
+			while i + (r + 1) * p <= n && ids[i + r * p..i + (r + 1) * p] == ids[i..i + p] {
+				r += 1;
+			}
+			if r >= 3 && best.map_or(true, |(bp, br)| p * r > bp * br) {
+				best = Some((p, r));
+			}
+		}
+		match best {
+			Some((p, r)) => {
+				out.push(format!("R{}:{}", r, tokens[i..i + p].join("~")));
+				i += p * r;
+			}
+			None => {
+				out.push(tokens[i].clone());
+				i += 1;
+			}
+		}
+	}
+	out.join(".")
 }
 
 pub fn observed_answer(o: &Observed) -> String {
@@ -1247,6 +1293,226 @@ pub fn lexopt_cases(out: &mut Out, rng: &mut Rng, thorough: bool) {
 		}
 	}
 	out.count("exhaustive.lexopt.argv_len_le_2");
+}
+
+// ---------------------------------------------------------------- an oracle that does not use the model
+
+/// One operand of a constructed command line.
+#[derive(Clone, Debug)]
+pub struct Operand {
+	/// As written in argv (`-` = standard input).
+	pub arg: String,
+	pub kind: Kind,
+	/// The source format the CLI must resolve without `-f`, by construction of the name.
+	pub ext_format: Option<Fmt>,
+}
+
+impl Operand {
+	pub fn stdin() -> Operand {
+		Operand { arg: "-".into(), kind: Kind::Missing, ext_format: None }
+	}
+	pub fn is_stdin(&self) -> bool {
+		self.arg == "-"
+	}
+}
+
+/// The last extension of a plain relative path, lower-cased, looked up in the five spellings.
+pub fn format_of_name(name: &str) -> Option<Fmt> {
+	let last = name.trim_end_matches('/').rsplit('/').next().unwrap_or("");
+	let dot = last.rfind('.')?;
+	if dot == 0 {
+		return None;
+	}
+	match last[dot + 1..].to_ascii_lowercase().as_str() {
+		"json" => Some(Fmt::Json),
+		"msgpack" => Some(Fmt::Msgpack),
+		"toml" => Some(Fmt::Toml),
+		"yaml" | "yml" => Some(Fmt::Yaml),
+		_ => None,
+	}
+}
+
+pub fn regular(name: &str, data: Vec<u8>) -> Operand {
+	Operand { arg: name.to_string(), kind: Kind::Regular(data), ext_format: format_of_name(name) }
+}
+
+pub fn fifo(name: &str, data: Vec<u8>) -> Operand {
+	Operand { arg: name.to_string(), kind: Kind::Fifo(data), ext_format: format_of_name(name) }
+}
+
+/// What the property says standard output must hold, computed with the
+/// library alone: the outputs of the inputs before the first failing one, and
+/// for the failing one its position, whether it belongs to an input (message
+/// must name it) and what the library wrote before failing.
+pub struct Expected {
+	pub complete: Vec<Vec<u8>>,
+	pub failure: Option<Failure>,
+}
+
+pub struct Failure {
+	pub position: usize,
+	pub partial: Vec<u8>,
+	/// `Some(display name)` when stderr must start with `xt error in <name>: `.
+	pub names: Option<String>,
+	pub message: String,
+}
+
+impl Expected {
+	pub fn all_complete(&self) -> Vec<u8> {
+		self.complete.concat()
+	}
+}
+
+pub fn expected(ops: &[Operand], stdin: &[u8], cli_from: Option<Fmt>, to: Fmt) -> Expected {
+	let mut sink: Vec<u8> = vec![];
+	let mut complete = vec![];
+	let mut failure = None;
+	let mut stdin_used = false;
+	let mut ends: Vec<usize> = vec![];
+	{
+		let shared = std::rc::Rc::new(std::cell::RefCell::new(Vec::<u8>::new()));
+		struct W(std::rc::Rc<std::cell::RefCell<Vec<u8>>>);
+		impl Write for W {
+			fn write(&mut self, b: &[u8]) -> io::Result<usize> {
+				self.0.borrow_mut().extend_from_slice(b);
+				Ok(b.len())
+			}
+			fn flush(&mut self) -> io::Result<()> {
+				Ok(())
+			}
+		}
+		let mut w = W(shared.clone());
+		let mut t = xt::Translator::new(&mut w, to.xt());
+		for (i, op) in ops.iter().enumerate() {
+			let display = if op.is_stdin() { "standard input".to_string() } else { op.arg.clone() };
+			let from = cli_from.or(op.ext_format).map(Fmt::xt);
+			let r: Result<(), String> = if op.is_stdin() {
+				if stdin_used {
+					failure = Some(Failure { position: i, partial: vec![], names: None, message: "cannot read from standard input more than once".into() });
+					break;
+				}
+				stdin_used = true;
+				crate::util::catch(|| t.translate_reader(stdin, from)).map_err(|p| format!("PANIC: {p}")).and_then(|r| r.map_err(|e| e.to_string()))
+			} else {
+				match &op.kind {
+					Kind::Regular(d) => crate::util::catch(|| t.translate_slice(d, from)).map_err(|p| format!("PANIC: {p}")).and_then(|r| r.map_err(|e| e.to_string())),
+					Kind::Fifo(d) => crate::util::catch(|| t.translate_reader(&d[..], from)).map_err(|p| format!("PANIC: {p}")).and_then(|r| r.map_err(|e| e.to_string())),
+					Kind::Missing => Err("No such file or directory (os error 2)".into()),
+					Kind::Dir => Err("Is a directory (os error 21)".into()),
+					Kind::Unreadable => Err("Permission denied (os error 13)".into()),
+					Kind::NotDir => Err("Not a directory (os error 20)".into()),
+				}
+			};
+			let start = ends.last().copied().unwrap_or(0);
+			let now = shared.borrow().len();
+			match r {
+				Ok(()) => {
+					ends.push(now);
+				}
+				Err(m) => {
+					failure = Some(Failure { position: i, partial: shared.borrow()[start..now].to_vec(), names: Some(display), message: m });
+					break;
+				}
+			}
+		}
+		drop(t);
+		sink.extend_from_slice(&shared.borrow());
+	}
+	let mut start = 0;
+	for e in ends {
+		complete.push(sink[start..e].to_vec());
+		start = e;
+	}
+	Expected { complete, failure }
+}
+
+/// argv and file table for a list of operands.
+pub fn spec_of(opts: &[String], ops: &[Operand], stdin: &[u8], out_mode: StdoutMode, debug_bin: bool) -> RunSpec {
+	let mut args: Vec<String> = opts.to_vec();
+	let mut files = vec![];
+	for op in ops {
+		args.push(op.arg.clone());
+		if !op.is_stdin() && !files.iter().any(|f: &FileSpec| f.path == op.arg) {
+			files.push(FileSpec { path: op.arg.clone(), kind: op.kind.clone() });
+		}
+	}
+	RunSpec { debug_bin, argv0: "xt".into(), args, stdin: stdin.to_vec(), files, out: out_mode }
+}
+
+// ---------------------------------------------------------------- documents
+
+/// A 400-character string: most of the bytes of a record travel in one
+/// write call, which keeps the number of write events per byte low.
+fn filler() -> String {
+	"abcdefghijklmnopqrstuvwxyz0123456789-ABCD".repeat(10)[..400].to_string()
+}
+
+fn json_record() -> String {
+	format!(r#"{{"id":7,"name":"record-name","blob":"{}","tags":["a","bb"],"ok":true}}"#, filler())
+}
+
+/// `n` identical records (about 460 bytes each) as one JSON array.
+pub fn json_array(n: usize) -> Vec<u8> {
+	let rec = json_record();
+	let mut s = String::from("[");
+	for i in 0..n {
+		if i > 0 {
+			s.push(',');
+		}
+		s.push_str(&rec);
+	}
+	s.push(']');
+	s.into_bytes()
+}
+
+/// `n` identical JSON documents, one per line.
+pub fn json_stream(n: usize) -> Vec<u8> {
+	let rec = json_record();
+	let mut s = String::new();
+	for _ in 0..n {
+		s.push_str(&rec);
+		s.push('\n');
+	}
+	s.into_bytes()
+}
+
+/// A JSON object holding `n` records (valid as a TOML root).
+pub fn json_object(n: usize) -> Vec<u8> {
+	let rec = format!(r#"{{"id":7,"name":"record-name","blob":"{}","ok":true}}"#, filler());
+	let mut s = String::from("{\"rows\":[");
+	for i in 0..n {
+		if i > 0 {
+			s.push(',');
+		}
+		s.push_str(&rec);
+	}
+	s.push_str("]}");
+	s.into_bytes()
+}
+
+pub fn yaml_seq(n: usize) -> Vec<u8> {
+	let f = filler();
+	let mut s = String::new();
+	for _ in 0..n {
+		s.push_str(&format!("- id: 7\n  name: record-name\n  blob: {f}\n  tags: [a, bb]\n"));
+	}
+	s.into_bytes()
+}
+
+pub fn toml_rows(n: usize) -> Vec<u8> {
+	let f = filler();
+	let mut s = String::new();
+	for _ in 0..n {
+		s.push_str(&format!("[[rows]]\nid = 7\nname = \"record-name\"\nblob = \"{f}\"\n"));
+	}
+	s.into_bytes()
+}
+
+/// The same records as MessagePack (translated by the library from JSON).
+pub fn msgpack_of(json: &[u8]) -> Vec<u8> {
+	let mut v = vec![];
+	let _ = xt::translate_slice(json, Some(xt::Format::Json), xt::Format::Msgpack, &mut v);
+	v
 }
 
 pub fn run(_out: &mut Out, _rng: &mut Rng, _thorough: bool) {}
